@@ -32,12 +32,14 @@ CLAIMS = {
 GOALS = {'quick': ['two declarations of one variable', 'variable given in the '
                    'initial state', 'dotdot wiring', 'glob child from state',
                    'glob over children that hold processes',
-                   'undeclared key before declared ones'],
+                   'undeclared key before declared ones',
+                   'two ports of one process on one store'],
          'thorough': ['two declarations of one variable',
                       'variable given in the initial state', 'dotdot wiring',
                       'glob child from state',
                       'glob over children that hold processes',
-                      'undeclared key before declared ones']}
+                      'undeclared key before declared ones',
+                      'two ports of one process on one store']}
 STUBS = ['stub processes whose schema, own initial_state() and wiring are '
          'produced by solver-decided choices']
 ASSUMPTIONS = ['which of two DIFFERENT declared defaults wins is not stated by '
@@ -80,6 +82,11 @@ def jobs(tier):
                             depth=depth, w0=w0, N=2 if q else 3,
                             budget_s=100 if q else 1200,
                             crosscheck=0 if q else 10))
+    for depth in (0, 2):
+        for w0 in (0, 2, 4):
+            out.append(dict(name='twoports-d%d-w%d' % (depth, w0),
+                            part='value', depth=depth, w0=w0, N=1 if q else 2,
+                            twoports=True, budget_s=100 if q else 900))
     out.append(dict(name='conflict', part='conflict', budget_s=100))
     out.append(dict(name='glob', part='glob', budget_s=100))
     return out
@@ -116,8 +123,20 @@ def part_value(ctx, cfg):
             ov = ctx.int('ov', -9, 9)
             init = {'port': {'v': ov}}
             own[(n, resolve(parent, w) + ('v',))] = ov
-        procs[n] = P({'schema': schema, 'init': init})
         topo[n] = {'port': w}
+        if i == 0 and cfg.get('twoports'):
+            # a second port of the same process wired to the same store
+            dv2 = ctx.int('dv', -9, 9)
+            schema['port2'] = {'w2': {'_default': dv2}}
+            node2 = resolve(parent, w) + ('w2',)
+            decl[node2] = [dv2]
+            topo[n]['port2'] = w
+            if ctx.flag('own'):
+                ov2 = ctx.int('ov', -9, 9)
+                init = dict(init, port2={'w2': ov2})
+                own[(n, node2)] = ov2
+            ctx.goal('two ports of one process on one store')
+        procs[n] = P({'schema': schema, 'init': init})
     # a step (declared under steps=, with a flow entry) declares a variable of
     # its own two levels down and one shared with the first process
     sw = ctx.int('dv', -9, 9)
